@@ -591,7 +591,11 @@ async fn run(prop: &'static str, _tier: Tier) {
         zone: zone.clone(),
         journal: Arc::new(journal),
         have_journal,
+        // (Only where the transfer's fidelity is the subject: the known C10
+        // finding it runs into is not a TSIG matter.)
+        compat: sim::chance("cfg.compat_mode", 1, 6) && !bulky && prop == "C10",
     };
+    let compat_mode = provider.compat;
     let xfr_svc = XfrMiddlewareSvc::<Vec<u8>, QuerySvc, Option<Tk>, Provider>::new(QuerySvc, provider, 1);
     let tsig_svc = TsigMiddlewareSvc::<Vec<u8>, _, Tk, ()>::new(xfr_svc, key.clone());
     let svc = Arc::new(MandatoryMiddlewareSvc::<Vec<u8>, _, ()>::new(tsig_svc));
@@ -942,6 +946,19 @@ async fn run(prop: &'static str, _tier: Tier) {
             }
         }
         _ => {
+            // The server's backward compatible packaging (one record per
+            // message) of an IXFR runs into the known finding of the xfr
+            // scenario: the interpreter takes the first message, which holds
+            // only the SOA, for the whole response.
+            if compat_mode && ixfr && apply_err.as_deref().is_some_and(|e| e.contains("SingleSoaIxfrTcpRetrySignal")) {
+                sim::violation(
+                    prop,
+                    "fidelity",
+                    "ixfr-first-message-with-only-the-soa-taken-as-whole-response".to_string(),
+                    format!("the library's own XFR server in compatibility mode answers an IXFR with one record per message; the stream client / interpreter took the first message (the SOA alone) for the whole response: {} message(s) handed on, {:?}", delivered.len(), apply_err),
+                );
+                return;
+            }
             // (3) not finished: nothing partial is visible.
             if mode == Mode::Quiet && !(ixfr && i == j) {
                 sim::violation(prop, "honest", format!("transfer-failed-without-any-fault/{}", label), format!("end {:?}, apply error {:?}, interpreter finished {}", end, apply_err, finished));
